@@ -230,13 +230,17 @@ class _CHTextChunk:
             return True
 
         if isinstance(other, type(self)):
+            if not self.text and not other.text:
+                # nothing is shown: equal whatever the colors are
+                # (as CHText objects made of these chunks)
+                return True
             return (
                 self.c_prefix == other.c_prefix
                 and self.text == other.text
                 and self.c_suffix == other.c_suffix)
 
         if isinstance(other, str):
-            return self.is_plain() and self.text == other
+            return self.text == other and (self.is_plain() or not self.text)
 
         return NotImplemented
 
